@@ -82,6 +82,29 @@ CHECKS["C02"] = dict(
     technique="Coq invariant proof + model/implementation correspondence + trace monitor",
     ref="5/C02")
 
+CHECKS["C10"] = dict(
+    text="Machine-checked proof (Coq) at block-repository level: the storage mutations of every operation are made "
+         "explicit and every crash image (after any single mutation of any operation of any valid history, any file "
+         "size, both back ends) loads and represents a non-empty prefix of the chain held before or after the operation. "
+         "At node level the check enumerates EVERY prefix of the real mutation log of generated sync/reorg/shutdown "
+         "histories (recording storage wrapper), loads a fresh real Node on each image and checks linkage and "
+         "single-branch prefix; plus every single-operation fault per history (restart must load a linked prefix).",
+    note="Trusted: Coq kernel; BlockRepo model tied to the code by the C09 correspondence suite (re-run here); per-key "
+         "atomic writes (torn files are a back-end matter); convergence after restart is C01.",
+    technique="Coq proof over explicit storage mutations + exhaustive crash-prefix / single-fault enumeration on the implementation",
+    ref="5/C10")
+CHECKS["C12"] = dict(
+    text="Machine-checked proofs (Coq): non-interference - the trusted steps of any history interleaved with arbitrary "
+         "untrusted block/headers/tx/inv messages observe exactly what they observe without them (two-run theorem over "
+         "the sync model); an untrusted connection is verified only by linked headers whose first is known within the "
+         "window; unverified tx/inv are dropped; no vouching (safe needs the trusted mark: monitor code 122 of the "
+         "transaction pipeline theorem). Correspondence through the real untrusted handler map sharing the real trusted "
+         "state; the two-run comparison is also executed on the implementation.",
+    note="Trusted: Coq kernel; models Sync.v / TxFlow.v validated by correspondence; untrusted traffic only enters through "
+         "NewUntrustedMessageHandlers.",
+    technique="Coq two-run (non-interference) proof + model/implementation correspondence + two-run diff on the implementation",
+    ref="5/C12")
+
 NOT_APPLICABLE = {}
 
 
